@@ -289,6 +289,24 @@ func (e *Enc) sliceAsserts(o *Obligation) []int {
 
 func buildSMT(o *Obligation, withModel bool) string { return buildSMTLevel(o, withModel, 1) }
 
+// recDeclNeeded: the recursive function is used by another definition that is kept.
+func recDeclNeeded(decls []string, name, body string) bool {
+	for _, d := range decls {
+		if strings.HasPrefix(d, "(define-fun") && !strings.HasPrefix(d, "(define-fun-rec "+name+" ") && strings.Contains(d, name) {
+			// d mentions name: needed if d itself is needed
+			rest := strings.TrimPrefix(strings.TrimPrefix(d, "(define-fun-rec "), "(define-fun ")
+			dn := rest
+			if k := strings.Index(rest, " ("); k > 0 {
+				dn = rest[:k]
+			}
+			if strings.Contains(body, dn) {
+				return true
+			}
+		}
+	}
+	return false
+}
+
 // level 0: strict slice; 1: inclusive cone of influence; 2: everything
 func buildSMTLevel(o *Obligation, withModel bool, level int) string {
 	e := o.enc
@@ -298,10 +316,10 @@ func buildSMTLevel(o *Obligation, withModel bool, level int) string {
 	}
 	sb.WriteString("(set-logic ALL)\n")
 	sb.WriteString(preludeCore)
-	for _, d := range e.decls {
-		sb.WriteString(d)
-		sb.WriteByte('\n')
-	}
+	declPos := sb.Len()
+	_ = declPos
+	var body strings.Builder
+	writeBody := func(sb *strings.Builder) {
 	if o.Expect == "sat" || os.Getenv("GOVC_NOSLICE") != "" || level >= 2 {
 		for _, a := range e.asserts[:o.Prefix] {
 			sb.WriteString("(assert ")
@@ -326,6 +344,25 @@ func buildSMTLevel(o *Obligation, withModel bool, level int) string {
 	sb.WriteString("(assert ")
 	sb.WriteString(o.Goal)
 	sb.WriteString(")\n(check-sat)\n")
+	}
+	writeBody(&body)
+	bodyText := body.String()
+	// recursive spec functions slow every query down: define only those that occur
+	for _, d := range e.decls {
+		if strings.HasPrefix(d, "(define-fun-rec ") {
+			rest := d[len("(define-fun-rec "):]
+			name := rest
+			if k := strings.Index(rest, " ("); k > 0 {
+				name = rest[:k]
+			}
+			if !strings.Contains(bodyText, name) && !recDeclNeeded(e.decls, name, bodyText) {
+				continue
+			}
+		}
+		sb.WriteString(d)
+		sb.WriteByte('\n')
+	}
+	sb.WriteString(bodyText)
 	if withModel && len(o.Witness) > 0 {
 		sb.WriteString("(get-value (")
 		for _, w := range o.Witness {
